@@ -1023,6 +1023,40 @@ Section Composed.
     flat5 (run_for_each [] so f g pan (pipe_of gen_generate nd) N) = generate_ N f pan /\
     flat5 (run_for_each [] so f g pan (pipe_of gen_boxed_generate nd) N) = generate_ N f pan.
   Proof. rewrite boxed_generate_same_loop. split; apply tie_generate. Qed.
+
+  (* ---- the trait defaults (by-reference and other sequences) ---- *)
+  Theorem src_default_map_in_order a so nd :
+    let '(o, m, t, e, c) := run_from_iter [a] so f g None (pipe_of gen_default_map nd) (length a) in
+    o = Ok (produced f 0 (map (fun x => [x]) a)) /\ c = map (fun x => [x]) a.
+  Proof.
+    exact (agrees_ok f _ [so] _ (flat5_agrees f None _ _ _ (tie_default_map f g None a so nd))).
+  Qed.
+
+  Theorem src_default_zip2_in_order a b so nd : length a = length b ->
+    let '(o, m, t, e, c) := run_from_iter [b; a] so f g None (pipe_of gen_default_inverted_zip2 nd) (length a) in
+    o = Ok (produced f 0 (zrows a b)) /\ c = zrows a b.
+  Proof.
+    intros Hlen. exact (agrees_ok f _ [so; so] _ (tie_default_zip2 f g None a b so nd Hlen)).
+  Qed.
+
+  Theorem src_default_fold_in_order a so nd init :
+    let '(o, m, t, c) := run_fold [a] so f g None (pipe_of gen_default_fold nd) (length a) init in
+    o = FoldOk (fold_acc g 0 init a) /\ List.concat c = a.
+  Proof.
+    pose proof (tie_default_fold f g None a so nd init) as H.
+    destruct (run_fold [a] so f g None (pipe_of gen_default_fold nd) (length a) init) as [[[o m] t] c].
+    rewrite fold_ok in H. injection H as -> _ ->. split; reflexivity.
+  Qed.
+
+  (* a lent sequence is never moved from or dropped by fold, whatever call panics *)
+  Theorem src_default_fold_lent_untouched pan a nd init :
+    let '(o, m, t, c) := run_fold [a] false f g pan (pipe_of gen_default_fold nd) (length a) init in
+    (m ++ t)%list = [].
+  Proof.
+    pose proof (tie_default_fold f g pan a false nd init) as H.
+    destruct (run_fold [a] false f g pan (pipe_of gen_default_fold nd) (length a) init) as [[[o m] t] c].
+    unfold fold_ in H. destruct (fold_loop g pan 0 init a) as [o' calls]. now injection H as _ -> _.
+  Qed.
 End Composed.
 
 (* how generate obtains its destination and hands it back: on the stack an uninitialised array and
